@@ -260,3 +260,41 @@ def strategy(tier):
                 ops.append({"op": "remove", "a": draw(a)})
         return {"kind": kind, "ext": ext, "wrap": wrap, "num": "exact" if exact else "float", "ops": ops}
     return case()
+
+
+EXHAUSTIVE_DOMAIN = ("one agent, one move: every (kind, extent, wrap, start, delta) with kind in {line, grid (extent x 2), discrete "
+                     "(1 x extent x 2 and 0 x extent x 0), continuous space (eighths, extents 1 and 3/2)}, grid extents 1..4, every start "
+                     "cell / every eighth incl. the far edge, delta in -(2*extent+1)..(2*extent+1) on the populated axis (thorough: "
+                     "additionally a second agent-independent axis delta and move_to to every target in -1..extent+1)")
+
+
+def exhaustive(tier):
+    for wrap in (False, True):
+        for e in (1, 2, 3, 4):
+            shapes = [("line", [e, 0, 0], 0), ("grid", [e, 2, 0], 0), ("discrete", [1, e, 2], 1), ("discrete", [0, e, 0], 1)]
+            for kind, ext, ax in shapes:
+                for start in range(e):
+                    pos = [0, 0, 0]
+                    pos[ax] = start
+                    for delta in range(-(2 * e + 1), 2 * e + 2):
+                        d = [0, 0, 0]
+                        d[ax] = delta
+                        yield {"kind": kind, "ext": ext, "wrap": wrap, "num": "exact",
+                               "ops": [{"op": "add", "a": 0, "pos": pos}, {"op": "move", "a": 0, "d": d}]}
+                    if tier != "quick":
+                        for target in range(-1, e + 2):
+                            t = [0, 0, 0]
+                            t[ax] = target
+                            yield {"kind": kind, "ext": ext, "wrap": wrap, "num": "exact",
+                                   "ops": [{"op": "add", "a": 0, "pos": pos}, {"op": "move_to", "a": 0, "pos": t}]}
+        for e8 in (8, 12):                                   # continuous, in eighths
+            for ext, ax in (([e8, 0, 0], 0), ([0, 16, e8], 2)):
+                for start in range(0, e8 + 1):
+                    pos = [0, 0, 0]
+                    pos[ax] = start
+                    step = 1 if tier != "quick" else 3
+                    for delta in list(range(-(2 * e8 + 1), 2 * e8 + 2, step)) + [0, e8, -e8]:
+                        d = [0, 0, 0]
+                        d[ax] = delta
+                        yield {"kind": "space", "ext": ext, "wrap": wrap, "num": "exact",
+                               "ops": [{"op": "add", "a": 0, "pos": pos}, {"op": "move", "a": 0, "d": d}]}
